@@ -192,6 +192,8 @@ def check_C02(ctx):
         ctx.model_must_hold(r, what='(limb-level cfdiv_q/tdiv_q/tdiv_r/cfdiv_r _2exp: shift, strip, rounding carry, two\'s complement remainder)')
     ctx.validate(ctx.run_driver(ctx.build('default'), 'corners_z', shards=16, extra='funs=mpz_tdiv_q:mpz_tdiv_r:mpz_fdiv_q:mpz_fdiv_r:mpz_cdiv_q:mpz_cdiv_r:mpz_mod:mpz_tdiv_qr:mpz_divexact', timeout=900))
     # the internal division kernels called directly, each against the contract its own source states (SemK2.tla)
+    DIVFUNS = 'mpz_tdiv_q:mpz_tdiv_r:mpz_tdiv_qr:mpz_fdiv_q:mpz_fdiv_r:mpz_fdiv_qr:mpz_cdiv_q:mpz_cdiv_r:mpz_cdiv_qr:mpz_mod:mpz_tdiv_q_ui:mpz_tdiv_r_ui:mpz_tdiv_qr_ui:mpz_tdiv_ui:mpz_fdiv_q_ui:mpz_fdiv_r_ui:mpz_fdiv_qr_ui:mpz_fdiv_ui:mpz_cdiv_q_ui:mpz_cdiv_r_ui:mpz_cdiv_qr_ui:mpz_cdiv_ui:mpz_mod_ui:mpz_tdiv_q_2exp:mpz_tdiv_r_2exp:mpz_fdiv_q_2exp:mpz_fdiv_r_2exp:mpz_cdiv_q_2exp:mpz_cdiv_r_2exp:mpz_divexact:mpz_divexact_ui:mpz_divisible_p:mpz_divisible_ui_p:mpz_divisible_2exp_p:mpz_congruent_p:mpz_congruent_ui_p:mpz_congruent_2exp_p'
+    ctx.validate(ctx.run_driver(ctx.build('default'), 'alias', shards=8, extra='funs=' + DIVFUNS, tier='thorough', timeout=900))      # every alias partition of every division function x exact/generous allocation (quotient or remainder stored in the divisor / dividend: seed C02d)
     trace_drivers(ctx, [('c02_tdiv', 16, 1200), ('c02_div1', 8, 600), ('c02_mpz', 16, 900), ('k2_sbdc', 8, 900), ('k2_dive2', 8, 900), ('k2_inv', 8, 900), ('k2_bdiv', 8, 900), ('k2_div1', 8, 900), ('k2_divis', 2, 600), ('scalar_ext', 14, 600)],
                   pure_drivers=['c02_tdiv', 'c02_div1', 'c02_mpz', 'k2_div1'])
     return ctx.finish('model_checking',
